@@ -61,6 +61,8 @@ def leaves_single(x=X):
         ("cmp", "eq", ("i", A(x, "t"), 0), p), ("cmp", "ne", ("i", A(x, "s"), 0), L("y")),
         ("cmp", "eq", ("i", A(x, "t"), -1), L(3)), ("cmp", "gt", ("i", A(x, "t"), -2), L(1)),
         ("pf", "p_eq", (x, L(2))), ("pc", "PEq", (x, L(2))),
+        # a user predicate whose second parameter has a default: the default used, a positional value given for it
+        ("pf", "p_below", (x,)), ("pf", "p_below", (x, L(3))),
         # method calls with keyword arguments (the defaults lo=1, hi=3 would give a different answer)
         ("t", ("ck", x, "p_between", (), (("lo", 2),))), ("t", ("ck", x, "p_between", (), (("hi", 1),))),
         ("t", ("ck", x, "p_between", (2,), (("hi", 2),))), ("t", ("ck", A(x, "ref"), "p_between", (), (("lo", 2), ("hi", 2)))),
